@@ -48,7 +48,7 @@ static void world_setup(void)
         CV[k] = cmb_condition_create(); snprintf(nm, sizeof nm, "a-condition-with-a-long-name-%d", k); cmb_condition_initialize(CV[k], nm);
         add_guard(&CV[k]->guard, GT_COND, k);
         /* observe every object guard: half through cmb_condition_subscribe, half through cmb_resourceguard_register */
-        for (int g = 0; g < nobjguards; g++) { if ((g + k) & 1) cmb_condition_subscribe(CV[k], GD[g].g); else cmb_resourceguard_register(GD[g].g, &CV[k]->guard); }
+        for (int g = 0; g < nobjguards; g++) { if ((g + k) & 1) cmb_condition_subscribe(CV[k], GD[g].g); else cmb_resourceguard_register(GD[g].g, &CV[k]->guard); OBS[k][g] = true; }
     }
     for (int k = 0; k < 4; k++) FLAG[k] = 0;
     int nstart = 0;
